@@ -134,6 +134,15 @@ def get_shape_params(shape, region_row, shape_columns):
 
         return shape_params
 
+    if shape == 'polygon':
+        # rows are padded to a common length by repeating the last vertex
+        xvals, yvals = values[0], values[1]
+        nvert = len(xvals)
+        while (nvert > 1 and xvals[nvert - 1] == xvals[nvert - 2]
+               and yvals[nvert - 1] == yvals[nvert - 2]):
+            nvert -= 1
+        values[0:2] = [xvals[:nvert], yvals[:nvert]]
+
     # center (or polygon) coordinates for all other regions
     shape_params = [PixCoord(values[0], values[1])]
 
